@@ -55,3 +55,12 @@ Theorem C06_spec_side_accepts_model : forall w st c, c_ocsp c <> [] \/ c_crl c <
   (cr_result (fst (check_cert w st c)) = RRevoked -> revoked_evidence_b w st true c = true).
 Proof. exact model_verdict_has_evidence. Qed.
 Print Assumptions C06_spec_side_accepts_model.
+
+(* isolation for the whole result slice; the root's URLs are irrelevant *)
+Theorem C06_isolation_chain : forall w w' st chain,
+  (forall c u, In c (removelast chain) -> In u (c_ocsp c) -> w_ocsp w u = w_ocsp w' u) ->
+  (forall c u, In c (removelast chain) -> In u (c_crl c) -> w_fetch w u = w_fetch w' u) ->
+  w_now w = w_now w' ->
+  check_positions w st chain = check_positions w' st chain.
+Proof. exact isolation_chain. Qed.
+Print Assumptions C06_isolation_chain.
